@@ -17,6 +17,10 @@ type Explorer struct {
 	// exploration early (used once a new violation was reported).
 	Stop    func() bool
 	Stopped bool
+	// FreeLimit: maximum number of non-default cost-free choices (completion
+	// orders at blocking points, select cases, map orders) per execution;
+	// 0 = unlimited (deviation bounding for the free choices).
+	FreeLimit int
 
 	Executions int64
 	MaxPoints  int
@@ -134,6 +138,7 @@ func (e *Explorer) explore(mk func() Scenario, prefix []int, used int, onFound f
 	}
 	// pre-emptions consumed by the prefix part are re-counted from the points
 	usedAt := 0
+	freeAt := 0 // non-default cost-free choices taken so far
 	for i := 0; i < len(out.Points); i++ {
 		p := out.Points[i]
 		if i >= len(prefix) {
@@ -143,6 +148,9 @@ func (e *Explorer) explore(mk func() Scenario, prefix []int, used int, onFound f
 				}
 				c := usedAt + cost(p, alt)
 				if c > e.Bound {
+					continue
+				}
+				if e.FreeLimit > 0 && cost(p, alt) == 0 && freeAt+1 > e.FreeLimit {
 					continue
 				}
 				if depth == 0 && e.Shards > 1 {
@@ -161,6 +169,9 @@ func (e *Explorer) explore(mk func() Scenario, prefix []int, used int, onFound f
 			}
 		}
 		usedAt += cost(p, p.Chosen)
+		if p.Chosen != 0 && cost(p, p.Chosen) == 0 {
+			freeAt++
+		}
 	}
 }
 
